@@ -384,6 +384,15 @@ func (x *Exec) invokeIntrinsic(st *State, fr *Frame, site ssa.Instruction, tname
 func (x *Exec) goStmt(st *State, fr *Frame, g *ssa.Go) {
 	// the spawned function is verified on its own; here only the spawn is recorded
 	st.callLog = append(st.callLog, "go")
+	// the spawn of a named function is an event: "at call K of F assert ..." sees the arguments it is started with
+	if callee := g.Call.StaticCallee(); callee != nil && !g.Call.IsInvoke() {
+		args := make([]Val, len(g.Call.Args))
+		for i, a := range g.Call.Args {
+			args[i] = x.reg(st, fr, a)
+		}
+		x.curSite = g
+		x.atCallAsserts(st, fr, fullName(callee), fnParamNames(callee), args, x.pos(g.Pos()))
+	}
 	if mc, ok := g.Call.Value.(*ssa.MakeClosure); ok {
 		// variables captured by reference become shared: havoc on later reads is
 		// approximated by havocking them now and at every loop head
@@ -490,6 +499,22 @@ func (x *Exec) selectStmt(st *State, fr *Frame, s *ssa.Select, k func(*State)) b
 		total++
 	}
 	tup := s.Type().(*types.Tuple)
+	if x.dry {
+		// effect computation: one abstract visit with an unknown outcome
+		L := []*Term{x.E.fresh("selidx", IntS), x.E.fresh("selok", BoolS)}
+		for j := 2; j < tup.Len(); j++ {
+			rv := x.freshVal("selrecv", tup.At(j).Type(), st)
+			L = append(L, rv.L...)
+		}
+		for _, sc := range s.States {
+			if sc.Dir == types.SendOnly {
+				x.chanSendVal(st, fr, x.reg(st, fr, sc.Chan), x.reg(st, fr, sc.Send), x.pos(s.Pos()))
+			}
+		}
+		st.regs[s] = Val{T: tup, L: L}
+		k(st)
+		return true
+	}
 	for ci := 0; ci < total; ci++ {
 		st2 := st.clone()
 		idx := ci
